@@ -305,7 +305,7 @@ func checkCachedProof(x *Exec, prop string, c *lightClient, md *lightModel, afte
 	}
 	L := ref.APILayout(md.s)
 	if c.stump.NumLeaves != md.s.Total() || !eqH(c.stump.Roots, L.Roots) {
-		x.Note("light: stump differs from reference (C01's concern)")
+		x.Report("C01", "Stump leaf count or roots differ from reference in the light-client family", fmt.Sprintf("want N=%d %s got N=%d %s", md.s.Total(), shortHs(L.Roots), c.stump.NumLeaves, shortHs(c.stump.Roots)))
 		return 1
 	}
 	if len(c.hashes) != len(c.proof.Targets) {
